@@ -124,8 +124,10 @@ func init() {
 			s4race("outcomes=errors", 2500, 200000),
 			s4race("late=1,filters=1,mounts=bare+mux+prefix", 2500, 200000),
 			s4race("faults=lossy", 1500, 100000),
+			s3race("", 800, 80000),
+			s3race("tap=1", 800, 80000),
 		},
-		Rule: "runs of scenarios S1-registry, S2-feed and S4-rpc under `go test -race` with the serial token scheduler: N concurrent tasks sharing one registry / one d2.Client / one handler and client. A run is non-trivial when at least two tasks touch the shared object; distinct by workload text.",
+		Rule: "runs of scenarios S1-registry, S2-feed and S4-rpc under `go test -race` with the serial token scheduler: N concurrent tasks sharing one registry / one d2.Client / one handler and client; plus S3 (the real d2.Client, TreeCache and ZooKeeper client against the simulated ensemble, go1.26.8 bubble) under -race with seeded select order, run-queue order and wake-up preemption. A run is non-trivial when at least two tasks touch the shared object; distinct by workload text. Reports whose two access stacks lie wholly inside a third-party dependency (go-zookeeper's recvLoop/sendSetWatches race on lastZxid) are counted as probes, not reported: they are not go-restli's.",
 		Assume: []string{
 			"the token kernel parks tasks with raw read/write syscalls that ThreadSanitizer does not treat as synchronisation; every happens-before edge the detector sees is the program's own (plus one channel send/receive per simulated network message)",
 			"the race detector keeps a bounded access history per memory word; runs are short to make eviction unlikely",
@@ -312,9 +314,16 @@ func s3b(cfg string, quick, thorough int) Batch {
 	if strings.HasPrefix(cfg, "tap") {
 		scen = "zktap"
 	}
-	return Batch{Pkg: "scen/s3", Scen: scen, Cfg: cfg, Seams: seamsS3, Bubble: true, Quick: quick, Thorough: thorough, ThoroughSecs: 1200,
+	return Batch{Pkg: "scen/s3", Scen: scen, Cfg: cfg, Seams: seamsS3, Bubble: true, NoRace: true, Quick: quick, Thorough: thorough, ThoroughSecs: 1200,
 		Real: []string{"v2/d2 complete: Client.getServiceUris, TreeCache, update loops, host selection; v2/d2/lazymap; github.com/go-zookeeper/zk v1.0.3 client (connection loop, watches, reconnect, session handling)"},
 		Stub: []string{"the ZooKeeper ensemble (sim/fakezk: jute wire protocol over net.Pipe)", "wall clock and timers (testing/synctest fake clock, go1.26.8)", "goroutine choice inside one stimulus' causal cone is NOT controlled (one P, no async preemption; trace determinism is measured by --selftest-determinism)"}}
+}
+
+// s3race: the same bubble scenarios built with the race detector, for C17
+func s3race(cfg string, quick, thorough int) Batch {
+	b := s3b(cfg, quick, thorough)
+	b.NoRace = false
+	return b
 }
 
 func joinNonEmpty(s ...string) string {
